@@ -8,6 +8,7 @@ package main
 
 import (
 	"context"
+	"errors"
 	"fmt"
 	"io"
 	"log"
@@ -20,6 +21,7 @@ import (
 	"sync/atomic"
 	"time"
 
+	serrors "github.com/jamf/regatta/storage/errors"
 	"github.com/jamf/regatta/storage/kv"
 	"github.com/jamf/regatta/storage/table"
 	"github.com/lni/dragonboat/v4"
@@ -131,6 +133,7 @@ func runStress(r *ev.Run, seed int64, opsPerClient, tables int) {
 	case <-time.After(wd):
 		r.Inconclusive(fmt.Sprintf("stress: watchdog after %s (%d/%d calls done)", wd, done.Load(), opsPerClient*len(cls)))
 	}
+	raceRounds(r, rs, seed, r.Pick(400, 4000))
 	closed := make(chan struct{})
 	go func() { nh.Close(); close(closed) }()
 	select {
@@ -176,6 +179,92 @@ func runStress(r *ev.Run, seed int64, opsPerClient, tables int) {
 		r.Extra("stress_sample_history", hist)
 	}
 	scanRaceLogs(r, stressWitness{Mode: "stress", Seed: seed, Clients: len(cls), Ops: opsPerClient, Tables: tables})
+}
+
+// raceRounds: on a table nobody used before (or whose only lease, of a fourth node, has
+// expired), three nodes request the lease at the same instant through managers that sit
+// DIRECTLY on the real RaftStore (no monitor in between: the proposals really reach the Raft
+// group together and may be committed in one batch). Judged from return values alone: nobody
+// returns the lease during a round, so at most one of the racing requests may be told nil.
+func raceRounds(r *ev.Run, rs *kv.RaftStore, seed int64, rounds int) {
+	const nodes = 3
+	mgrs := make([]*table.Manager, nodes)
+	for i := range mgrs {
+		mgrs[i] = table.NewManager(nil, nil, rs, mgrConfig(uint64(i+1)))
+	}
+	fourth := table.NewManager(nil, nil, rs, mgrConfig(4))
+	type req struct {
+		tbl   string
+		start chan struct{}
+	}
+	reqs := make([]chan req, nodes)
+	errs := make([]chan error, nodes)
+	for i := range mgrs {
+		reqs[i], errs[i] = make(chan req), make(chan error, 1)
+		go func(i int) {
+			for q := range reqs[i] {
+				<-q.start
+				errs[i] <- mgrs[i].LeaseTable(q.tbl, time.Hour)
+			}
+		}(i)
+	}
+	defer func() {
+		for i := range reqs {
+			close(reqs[i])
+		}
+	}()
+	deadline := time.After(time.Duration(r.Pick(60, 240)) * time.Second)
+	reported := 0
+	for k := 0; k < rounds; k++ {
+		tbl := fmt.Sprintf("race-%d-%d", seed, k)
+		variant := "unclaimed table"
+		if k%2 == 1 {
+			variant = "expired lease of a fourth node"
+			if err := fourth.LeaseTable(tbl, -time.Hour); err != nil {
+				r.Inconclusive(fmt.Sprintf("stress: race round %d: cannot plant the expired lease: %v", k, err))
+				continue
+			}
+		}
+		start := make(chan struct{})
+		for i := range reqs {
+			reqs[i] <- req{tbl: tbl, start: start}
+		}
+		close(start)
+		var winners []int
+		unknown := false
+		for i := range errs {
+			select {
+			case err := <-errs[i]:
+				switch {
+				case err == nil:
+					winners = append(winners, i+1)
+				case errors.Is(err, kv.ErrVersionMismatch), errors.Is(err, serrors.ErrLeaseNotAcquired):
+				default:
+					unknown = true
+				}
+			case <-deadline:
+				r.Inconclusive(fmt.Sprintf("stress: race rounds: watchdog in round %d", k))
+				return
+			}
+		}
+		if unknown {
+			r.Inconclusive(fmt.Sprintf("stress: race round %d: a request failed with an unexpected store error", k))
+			continue
+		}
+		r.Count("stress_race_rounds", 1)
+		r.Count(fmt.Sprintf("stress_race_rounds_%d_granted", len(winners)), 1)
+		if len(winners) > 1 {
+			r.Count("stress_race_rounds_violating", 1)
+			if reported++; reported <= 2 {
+				stored, _ := rs.Get(leaseKey(tbl))
+				r.Violation("stress:racing-lease-requests-all-granted",
+					fmt.Sprintf("round %d (%s): the simultaneous LeaseTable(+1h) requests of nodes %v over a real RaftStore were all told nil, nobody returned a lease in between (stored record: %s)",
+						k, variant, winners, stored.Value),
+					stressWitness{Mode: "stress", Seed: seed, Clients: nodes, Ops: rounds, Tables: 1,
+						History: []string{fmt.Sprintf("round %d, %s, granted to %v, stored %s", k, variant, winners, stored.Value)}})
+			}
+		}
+	}
 }
 
 // ---- race detector reports
